@@ -368,6 +368,26 @@ pub fn run_case(tape: &mut Tape, _tier: Tier, _p: &CaseParams) -> CaseOutcome {
     }
   }
   sem.with_locker = tape.draw(Stream::Options, 4) == 3;
+  // sometimes the bytes arrive through the cache-bypassing retry: the lockfile
+  // knows their checksum and the cache tier holds a corrupt copy
+  if remote && media != 4 && tape.draw(Stream::Faults, 4) == 3 {
+    sem.with_locker = true;
+    w.lockfile.present = true;
+    w.lockfile.remote.insert(target.clone(), sha256_hex(&bytes));
+    if let Some(Entry::Module { bytes: b, headers, .. }) = w.remote.get(&target).cloned() {
+      let mut bad = b;
+      bad.extend_from_slice(b"\n/* corrupt */");
+      w.cache.insert(
+        target.clone(),
+        Some(Entry::Module {
+          bytes: bad,
+          headers,
+          final_url: None,
+        }),
+      );
+    }
+    out.count("probe.bytes_arrive_through_checksum_retry", 1);
+  }
   let sched = SchedOpts::draw(tape);
   let hash_seed = draw_hash_seed(tape);
   let t0 = std::mem::replace(tape, Tape::replay(Default::default()));
